@@ -50,7 +50,8 @@ META = {
 }
 
 THEOREMS = [
-    "compatible_bernese_crd", "compatible_bernese_clu", "compatible_bernese_sta_v52", "bernese_sta_v54_incompatible",
+    "layout_compatible_sound", "layout_compatible_values", "column_reads_printed_value",
+    "compatible_bernese_crd", "crd_reads_printed_coordinate", "compatible_bernese_clu", "compatible_bernese_sta_v52", "bernese_sta_v54_incompatible",
     "compatible_tms_header", "compatible_tms_file_reference", "compatible_tms_ref_coordinate", "compatible_tms_columns",
     "tms_blocks_wf", "blocks_balanced", "tms_rows_start_blank", "tms_types_shape",
     "sta_fields_in_ruler", "tokens_pieces", "tms_tokens", "token_row_sound", "tms_domain_fits", "crd_domain_fits",
@@ -89,6 +90,30 @@ ROWS = OrderedDict([
     ("tms_fr_version", (W + "sinex_tms.py", "file_reference", 4, [H("version", "s", 60)])),
     ("tms_refcoord", (W + "sinex_tms.py", "timeseries_ref_coordinate", 0, [
         H("station", "s", 9), H("epoch", "s", exact=14), H("x", "f"), H("y", "f"), H("z", "f"), H("frame", "s")])),
+    ("tms_desc", (W + "sinex_tms.py", "solution_description", 0, [H("key", "s", 29), H("value", "s")])),
+    ("tms_est", (W + "sinex_tms.py", "solution_estimate", 0, [
+        H("index", "i"), H("type", "s", 13), H("station", "s", 9), H("soln", "i"), H("from", "s", exact=14), H("to", "s", exact=14),
+        H("unit", "s", 5), H("value", "f"), H("sigma", "f")])),
+    ("tms_est1", (W + "sinex_tms.py", "solution_estimate", 1, [
+        H("index", "i"), H("type", "s", 13), H("station", "s", 9), H("from", "s", exact=14), H("to", "s", exact=14),
+        H("unit", "s", 5), H("value", "f"), H("sigma", "f")])),
+    ("apr", (W + "gamit_apr_eq.py", "gamit_apr_eq", [2, 3], [
+        H("ident", "s", 8), H("x", "f"), H("y", "f"), H("z", "f"), H("vx", "f"), H("vy", "f"), H("vz", "f"), H("epoch", "f"),
+        H("x_sig", "f"), H("y_sig", "f"), H("z_sig", "f"), H("vx_sig", "f"), H("vy_sig", "f"), H("vz_sig", "f"), H("comment", "s")])),
+    ("eq", (W + "gamit_apr_eq.py", "gamit_apr_eq", 4, [H("station", "s", 4), H("ident", "s", 8), H("start", "s", exact=16),
+                                                       H("end", "s", exact=16)])),
+    ("gamit_sinfo", (W + "gamit_station_info.py", "gamit_station_info", 0, [
+        H("station", "s", exact=4), H("name", "s", 16), H("start", "s"), H("stop", "s"), H("height", "f"), H("height_code", "s", 5),
+        H("north", "f"), H("east", "f"), H("r_type", "s", 20), H("r_version", "s", 20), H("r_firmware", "s", 5), H("r_serial", "s", 20),
+        H("a_type", "s", 15), H("radome", "s", 5), H("a_serial", "s", 20)])),
+    ("gx_id", (W + "gipsyx_site_info.py", "gipsyx_site_info", 0, [H("station", "s", 4), H("domes", "s", 9), H("name", "s"), H("country", "s")])),
+    ("gx_ant", (W + "gipsyx_site_info.py", "gipsyx_site_info", 1, [
+        H("station", "s", 4), H("date", "s", 19), H("type", "s"), H("radome", "s"), H("east", "f"), H("north", "f"), H("up", "f"), H("serial", "s")])),
+    ("gx_ant2", (W + "gipsyx_site_info.py", "gipsyx_site_info", 2, [
+        H("station", "s", 4), H("date", "s", 19), H("type", "s"), H("radome", "s"), H("east", "f"), H("north", "f"), H("up", "f"), H("serial", "s")])),
+    ("gx_rx", (W + "gipsyx_site_info.py", "gipsyx_site_info", 3, [H("station", "s", 4), H("date", "s", 19), H("type", "s"), H("serial", "s")])),
+    ("gx_state", (W + "gipsyx_site_info.py", "gipsyx_site_info", 4, [
+        H("station", "s", 4), H("date", "s", 19), H("x", "f"), H("y", "f"), H("z", "f"), H("vx", "f"), H("vy", "f"), H("vz", "f")])),
     ("tms_columns", (W + "sinex_tms.py", "timeseries_columns", 0, [H("idx", "i"), H("name", "s", 20), H("unit", "s", 20),
                                                                   H("description", "s")])),
 ])
@@ -109,9 +134,10 @@ def extract():
     for rid, (rel, fn, k, hints) in ROWS.items():
         tm, consts, dyn = tl.writer_templates(rel, fn)
         t.found[(rel, fn)] = (tm, consts, dyn)
-        if k >= len(tm):
+        ks = k if isinstance(k, list) else [k]
+        if max(ks) >= len(tm):
             raise TranslateError(f"{rel}:{fn}: row template #{k} not found ({len(tm)} templates)")
-        lay = tl.layout_from_items(tm[k], hints, f"{rel}:{fn}#{k}")
+        lay = tl.layout_from_items([it for k_ in ks for it in tm[k_]], hints, f"{rel}:{fn}#{k}")
         if lay[-1][0] != "lit" or not lay[-1][1].endswith("\n") or any("\n" in i[1][:-1] for i in lay[:-1] if i[0] == "lit") \
                 or "\n" in lay[-1][1][:-1]:
             raise TranslateError(f"{rel}:{fn}#{k}: a row template must be one line ending in a newline")
@@ -301,7 +327,7 @@ def dset_digest(dset):
             parts.append(f"{f}:" + hashlib.sha1(repr(val.tolist()).encode()).hexdigest())
         else:
             parts.append(f"{f}:{val.dtype}{val.shape}:" + hashlib.sha1(np.ascontiguousarray(val).tobytes()).hexdigest())
-    parts.append("meta:" + hashlib.sha1(json.dumps(dict(dset.meta), sort_keys=True, default=str).encode()).hexdigest())
+    parts.append("meta:" + hashlib.sha1(digest(dict(dset.meta)).encode()).hexdigest())
     parts.append(f"num_obs:{dset.num_obs}")
     return "|".join(parts)
 
@@ -665,6 +691,9 @@ def run_site_writers(ctx, t, acc, n_sets):
             frec = dict(kind=wname, rep=rep0, parser_error=None, row_refs=[], source=sd)
             acc.files.append(frec)
             getattr(_SiteFiles, wname)(ctx, t, acc, frec, lines, names, truth, opts, out, src_path)
+        if edge is None or edge == "coord_big":
+            sub = names[:8] if ctx.quick() else names[:25]
+            run_gamit_gipsyx(ctx, t, acc, k, sub, OrderedDict((st_, sd[st_]) for st_ in sub), truth, src_path, edge)
 
 
 def _src_repr(sd):
@@ -851,6 +880,181 @@ class _SiteFiles:
             ctx.case(("sta3", line), nontrivial=False)
 
 
+# =============================================================================================== gamit / gipsyx
+def _or_nan(x):
+    return x if x else float("nan")        # the writer's `value or np.nan` (None, and also an exact 0.0, become nan)
+
+
+def run_gamit_gipsyx(ctx, t, acc, k, names, sd, truth, src_path, edge):
+    """gamit_apr_eq, gipsyx_site_info (real site information objects) and gamit_station_info (duck-typed objects with an antenna
+    reference point, which SINEX sources do not have).  No parser of the library reads these files: every written line is
+    compared with the model (fields inside their columns) and the inputs are digested."""
+    import re
+    from types import SimpleNamespace
+    from midgard import writers
+    rng = ctx.rng
+
+    def call(wname, rep0, sdc, si, **kw):
+        before = digest(sdc) + ident_digest(si) if sdc is not None else None
+        dbefore = defaults_digest(wname)
+        try:
+            with warnings.catch_warnings():
+                warnings.simplefilter("ignore")
+                writers.write(wname, **kw)
+        except Exception as e:
+            acc.direct.append((f"writer {wname} raised {type(e).__name__}: {e}", dict(rep0, source=_src_repr(sd))))
+            return False
+        if sdc is not None and digest(sdc) + ident_digest(si) != before:
+            acc.direct.append((f"writer {wname} changed the site-information source data", dict(rep0, source=_src_repr(sd))))
+        if defaults_digest(wname) != dbefore:
+            acc.direct.append((f"writer {wname} changed the default value of one of its parameters", rep0))
+        return True
+
+    def lines_vs(rid_of, rows, lines, frec, what):
+        if len(lines) != len(rows):
+            acc.direct.append((f"{what}: {len(lines)} lines written, {len(rows)} predicted", dict(frec["rep"], lines=lines[:5], source=_src_repr(sd))))
+            return
+        for (rid, vals, info), ln in zip(rows, lines):
+            rep = dict(frec["rep"], row_type=rid, written_line=ln, input=info)
+            acc.add("check_line_t", emit.pair(f"L_{rid}", emit.lst(vals), emit.s(ln)), rep, frec)
+            ctx.case((rid, ln), nontrivial=rid in ("apr", "gx_state", "gx_ant", "gamit_sinfo"))
+
+    # ------------------------------------------------------------------ gamit_apr_eq
+    sdc = copy.deepcopy(sd)
+    si = build_site_info(sdc, names, src_path, truth)
+    apr, eq = Path(ctx.work) / f"site_{k}.apr", Path(ctx.work) / f"site_{k}.eq"
+    frame = rng.choice(["IGb14", "IGS20"])
+    rep0 = dict(writer="gamit_apr_eq", stations=len(names), edge=edge, options=dict(ref_frame=frame),
+                how="midgard.writers.write('gamit_apr_eq', apr_path=..., eq_path=..., site_info=<history objects>, ref_frame=...)")
+    if call("gamit_apr_eq", rep0, sdc, si, apr_path=apr, eq_path=eq, site_info=si, ref_frame=frame):
+        rows_a, rows_e = [], []
+        with warnings.catch_warnings():
+            warnings.simplefilter("ignore")
+            for st, values in si.items():
+                for num, sc in enumerate(values["site_coord"], start=1):
+                    point = "GPS" if num == 1 else f"{num}PS" if num < 10 else f"{num}S" if num < 100 else f"{num}"
+                    ident = f"{sc.station.upper()}_{point}"
+                    nums = [_or_nan(sc.pos[i]) for i in range(3)] + [_or_nan(sc.vel[i]) for i in range(3)]
+                    epoch = sc.ref_epoch.decimalyear if sc.ref_epoch else 0
+                    sig = [_or_nan(sc.pos_sigma[i]) for i in range(3)] + [_or_nan(sc.vel_sigma[i]) for i in range(3)]
+                    comment = f"{sc.system} from {sc.source} ({Path(values['site_coord'].source_path).stem})"
+                    rows_a.append(("apr", [v_s(ident)] + [v_f(x) for x in nums] + [v_f(epoch)] + [v_f(x) for x in sig] + [v_s(comment)],
+                                   dict(station=st, ident=ident, pos_vel=[float(x) for x in nums])))
+                    rows_e.append(("eq", [v_s(st.upper()), v_s(ident), v_s(sc.date_from.strftime("%Y %m %d %H %M")),
+                                          v_s(sc.date_to.strftime("%Y %m %d %H %M"))], dict(station=st, ident=ident)))
+        frec = dict(kind="gamit_apr_eq", rep=rep0, parser_error=None, row_refs=[], source=sd)
+        acc.files.append(frec)
+        la = read_lines(apr)
+        if len(la) < 3 or la[0] != "# Combined Site coordinate and velocity information" or la[2] != f"+REFERENCE_FRAME {frame}":
+            acc.direct.append(("gamit_apr_eq: header lines of the apr file differ from the writer's constants", dict(rep0, lines=la[:3])))
+        else:
+            lines_vs(None, rows_a, la[3:], frec, "gamit_apr_eq apr file")
+        lines_vs(None, rows_e, read_lines(eq), frec, "gamit_apr_eq eq file")
+
+    # ------------------------------------------------------------------ gipsyx_site_info
+    sdc = copy.deepcopy(sd)
+    si = build_site_info(sdc, names, src_path, truth)
+    out = Path(ctx.work) / f"site_{k}.gipsyx"
+    rep0 = dict(writer="gipsyx_site_info", stations=len(names), edge=edge, options={},
+                how="midgard.writers.write('gipsyx_site_info', file_path=..., site_info=<history objects + identifier>)")
+    if call("gipsyx_site_info", rep0, sdc, si, file_path=out, site_info=si):
+        rows = []
+        with warnings.catch_warnings():
+            warnings.simplefilter("ignore")
+            for st in sorted(names):
+                tr = truth[st]
+                if tr["ident"]:
+                    dom, name, country = tr["ident"]["domes"], tr["ident"]["name"], tr["ident"]["country"]
+                else:
+                    desc = sd[st]["site_id"]["description"].split(",")
+                    dom, name = tr["domes"], desc[0].strip()
+                    country = desc[1].strip().capitalize() if len(desc) > 1 else None
+                rows.append(("gx_id", [v_s(st.upper()), v_s(dom if dom else "UNKNOWN"), v_s(name or ""), v_s(country or "")], dict(station=st)))
+                dates = sorted({h["start_time"] for h in tr["ants"]} | {h["start_time"] for h in tr["eccs"]})
+                for d in dates:
+                    an, ec = at(tr["ants"], d), at(tr["eccs"], d)
+                    rows.append(("gx_ant", [v_s(st.upper()), v_s(d.strftime("%Y-%m-%d %H:%M:%S")), v_s(an["antenna_type"]),
+                                            v_s(an["radome_type"] or "NONE"), v_f(ec["vector_3"]), v_f(ec["vector_2"]), v_f(ec["vector_1"]),
+                                            v_s(f"  # {an['serial_number']}")],
+                                 dict(station=st, date=str(d), ecc=[ec["vector_3"], ec["vector_2"], ec["vector_1"]])))
+                for h in tr["rcvs"]:
+                    rows.append(("gx_rx", [v_s(st.upper()), v_s(h["start_time"].strftime("%Y-%m-%d %H:%M:%S")), v_s(h["receiver_type"]),
+                                           v_s(f" # {h['serial_number']} {h['firmware']}")], dict(station=st)))
+                for date, crd in si[st]["site_coord"].history.items():
+                    nums = [float(crd.pos.trs.x), float(crd.pos.trs.y), float(crd.pos.trs.z), float(crd.vel[0]), float(crd.vel[1]), float(crd.vel[2])]
+                    rows.append(("gx_state", [v_s(st.upper()), v_s(date[0].strftime("%Y-%m-%d %H:%M:%S"))] + [v_f(x) for x in nums],
+                                 dict(station=st, pos_vel=nums)))
+        frec = dict(kind="gipsyx_site_info", rep=rep0, parser_error=None, row_refs=[], source=sd)
+        acc.files.append(frec)
+        lg = read_lines(out)
+        if not lg or lg[0] != "KEYWORDS: ANT END ID POSTSEISMIC RX STATE":
+            acc.direct.append(("gipsyx_site_info: first line differs from the writer's constant", dict(rep0, lines=lg[:2])))
+        else:
+            lines_vs(None, rows, lg[1:], frec, "gipsyx_site_info")
+
+    # ------------------------------------------------------------------ gamit_station_info (duck-typed site information)
+    REF = {"BAM": "DHARP", "BCR": "DHBCR", "BDG": "", "BGP": "DHBGP", "BPA": "DHBPA", "TCR": "DHTCR", "TDG": "", "TGP": "DHTGP",
+           "TOP": "DHARP", "TPA": ""}
+
+    class Ecc:
+        def __init__(self, hist):
+            self.hist = hist
+
+        def get(self, date):
+            h = at(self.hist, date)
+            return None if h is None else SimpleNamespace(up=h["vector_1"], north=h["vector_2"], east=h["vector_3"],
+                                                          dpos=(h["vector_1"], h["vector_2"], h["vector_3"]))
+    stub, rows = OrderedDict(), []
+    prog = re.compile(r"\d*\.?\d+(?:\d+)?")
+    for st in names[:12]:
+        tr = truth[st]
+        refp = rng.choice(["BAM", "BCR", "BGP", "TOP", "XYZ"])
+        fw = [rng.choice(["5.22", "48.01", "Nav 4.17 Sig 0.00", "beta", "1.0"]) for _ in tr["rcvs"]]
+        def sm():
+            v_ = gen_small(rng, 9.9999)
+            return v_ if abs(v_) <= 9.9999 else v_ / 8
+        small = [dict(h, vector_1=sm(), vector_2=sm(), vector_3=sm()) for h in tr["eccs"]]
+        ants = [SimpleNamespace(type=h["antenna_type"], radome_type=h["radome_type"] if rng.random() < 0.8 else None, serial_number=h["serial_number"][:20],
+                                date_from=h["start_time"], date_to=h["end_time"] or DMAX, reference_point=refp, source="m3g") for h in tr["ants"]]
+        rcvs = [SimpleNamespace(type=h["receiver_type"], serial_number=h["serial_number"][:20], firmware=f_, date_from=h["start_time"],
+                                date_to=h["end_time"] or DMAX) for h, f_ in zip(tr["rcvs"], fw)]
+        stub[st] = {"antenna": ants, "receiver": rcvs, "eccentricity": Ecc(small)}
+        ia, ir = 0, 0
+        while ia < len(ants) and ir < len(rcvs):
+            a, r = ants[ia], rcvs[ir]
+            if prog.fullmatch(r.firmware):
+                r_fw, r_ver = r.firmware, "--------------------"
+            elif prog.findall(r.firmware):
+                r_fw, r_ver = prog.findall(r.firmware)[0], r.firmware
+            else:
+                r_ver, r_fw = "--------------------", "-----"
+            start, stop = max(a.date_from, r.date_from), min(a.date_to, r.date_to)
+            e = at(small, start) or at(small, stop)
+            h_, e_, n_ = (e["vector_1"], e["vector_3"], e["vector_2"]) if e else (0, 0, 0)
+            rows.append(("gamit_sinfo", [v_s(st.upper()), v_s("----------------"), v_s(start.strftime("%Y %j %H %M %S")), v_s(stop.strftime("%Y %j %H %M %S")),
+                                         v_f(h_), v_s(REF.get(refp, "-----")), v_f(n_), v_f(e_), v_s(r.type), v_s(r_ver), v_s(r_fw), v_s(r.serial_number),
+                                         v_s(a.type), v_s(a.radome_type if a.radome_type else "-----"), v_s(a.serial_number)],
+                         dict(station=st, start=str(start), stop=str(stop), firmware=r.firmware, reference_point=refp)))
+            if a.date_to <= stop:
+                ia += 1
+            if r.date_to <= stop:
+                ir += 1
+    out = Path(ctx.work) / f"site_{k}.station_info"
+    rep0 = dict(writer="gamit_station_info", stations=len(stub), edge=edge, options={},
+                how="midgard.writers.write('gamit_station_info', file_path=..., site_info={station: {antenna: [objects with reference_point], receiver: [...], eccentricity: <get(date)>}})")
+    sbefore = repr([(st, [vars(x) for x in v["antenna"]], [vars(x) for x in v["receiver"]]) for st, v in stub.items()])
+    if call("gamit_station_info", rep0, None, None, file_path=out, site_info=stub):
+        if repr([(st, [vars(x) for x in v["antenna"]], [vars(x) for x in v["receiver"]]) for st, v in stub.items()]) != sbefore:
+            acc.direct.append(("writer gamit_station_info changed the site information it was given", rep0))
+        frec = dict(kind="gamit_station_info", rep=rep0, parser_error=None, row_refs=[], source={})
+        acc.files.append(frec)
+        lg = read_lines(out)
+        if len(lg) < 3 or lg[0] != "*          Gamit station.info" or not lg[2].startswith("*SITE  Station Name      Session Start"):
+            acc.direct.append(("gamit_station_info: header lines differ from the writer's constants", dict(rep0, lines=lg[:3])))
+        else:
+            lines_vs(None, rows, lg[3:], frec, "gamit_station_info")
+
+
 # =============================================================================================== SINEX-TMS
 TMS_FLOAT_GROUPS = [
     # (probability, [(data type, dataset field)], value class)
@@ -942,7 +1146,43 @@ def gen_tms_dataset(rng, ctx, edge):
             for _, f in fields:
                 d.add_float(f.replace("obs.", pre, 1), val=np.array([tms_value(rng, cls, edge) for _ in range(n)]),
                             unit="meter" if cls in ("sigma", "small", "clock") else None)
+    if edge is None and rng.random() < 0.35:
+        d.meta["vel"] = gen_vel_meta(rng, day0)
+        if rng.random() < 0.6:
+            d.meta["solution_description"] = OrderedDict([("time_series_model", rng.choice(["linear trend", "trend + annual"])),
+                                                          ("outlier_rejection", "3 sigma")][:rng.randrange(1, 3)])
     return d, stations, rows, flat
+
+
+def gen_vel_meta(rng, day0):
+    """meta['vel'] as the time-series analysis leaves it: per component either one value or {period: value} (trend intervals
+    keyed by (from, to), offsets keyed by one epoch), with optional *_sigma twins"""
+    def val():
+        return rng.choice([-1, 1]) * rng.choice([rng.uniform(1e-5, 0.05), 6.64e-3, 1.5e-11, 123.456, 9.9999999999999995e-4, 0.5, 2.5e-5])
+    p1 = (day0.isoformat(), (day0 + timedelta(days=900)).isoformat())
+    p2 = (p1[1], (day0 + timedelta(days=2000, seconds=3600)).isoformat())
+    vel = OrderedDict(interval=[[day0, day0 + timedelta(days=2000, seconds=3600)]])
+    comps = rng.sample(["x", "y", "z", "e", "n", "u"], rng.randrange(1, 5))
+    for key in rng.sample(["trend", "bias", "amp_annual", "phase_annual", "rms", "offset", "amp_semiannual"], rng.randrange(1, 5)):
+        vel[key] = OrderedDict()
+        for c_ in comps:
+            if key == "offset":
+                vel[key][c_] = OrderedDict([((day0 + timedelta(days=400)).isoformat(), val())])
+            elif key == "trend" and rng.random() < 0.7:
+                vel[key][c_] = OrderedDict([(p1, val()), (p2, val())])
+            else:
+                vel[key][c_] = val()
+        if key in ("trend", "bias", "amp_annual") and rng.random() < 0.6:
+            vel[key + "_sigma"] = OrderedDict()
+            for c_ in comps:
+                v_ = vel[key][c_]
+                vel[key + "_sigma"][c_] = OrderedDict((k_, abs(val())) for k_ in v_) if isinstance(v_, dict) else abs(val())
+    return vel
+
+
+def tms_module():
+    import importlib
+    return importlib.import_module("midgard.writers.sinex_tms")
 
 
 def yyyydddsssss(dt):
@@ -1073,6 +1313,50 @@ def run_tms(ctx, t, acc, n_sets):
                     key, val = frv[rid]
                     fobs = None if q is None else ["ONone", o_s(q.data.get("file_reference", {}).get(key, "<missing>"))]
                     row(rid, [v_s(val)], fobs, "[CSkip; CU 60%nat]", "P_tms_file_reference", dict(key=key, value=val))
+            # SOLUTION/DESCRIPTION, SOLUTION/ESTIMATE (only with a velocity model in the meta data)
+            est = OrderedDict()
+            for nme, ft in tms_module().ESTIMATE_PARAMETER_FIELD_TYPES.items():
+                v_ = dset.meta
+                for key in ft.keys:
+                    v_ = v_.get(key) if isinstance(v_, dict) else None
+                    if v_ is None:
+                        break
+                if v_:
+                    est[nme] = v_
+            if est:
+                if "solution_description" in dset.meta:
+                    sq = tl.writer_sequence(W + "sinex_tms.py", "solution_description")
+                    expect_const(sq[0][1], "SOLUTION/DESCRIPTION")
+                    expect_const(sq[1][1], "SOLUTION/DESCRIPTION")
+                    for key, val_ in dset.meta["solution_description"].items():
+                        row("tms_desc", [v_s(key.replace("_", " ").upper()), v_s(val_)], None, info=dict(key=key, value=val_))
+                    expect_const(sq[-1][1], "SOLUTION/DESCRIPTION")
+                sq = tl.writer_sequence(W + "sinex_tms.py", "solution_estimate")
+                expect_const(sq[0][1], "SOLUTION/ESTIMATE")
+                expect_const(sq[1][1], "SOLUTION/ESTIMATE")
+                index = 1
+                units = {n_: f_.unit for n_, f_ in tms_module().ESTIMATE_PARAMETER_FIELD_TYPES.items()}
+                for type_, entries in est.items():
+                    if type_.endswith("_SIG"):
+                        continue
+                    if isinstance(entries, dict):
+                        for i_sol, (period, value) in enumerate(entries.items()):
+                            if isinstance(period, tuple):
+                                tf, tt = yyyydddsssss(datetime.fromisoformat(period[0])), yyyydddsssss(datetime.fromisoformat(period[1]))
+                            else:
+                                tf, tt = yyyydddsssss(datetime.fromisoformat(period)), "0000:000:00000"
+                            sg = est[type_ + "_SIG"][period] if type_ + "_SIG" in est else 0.0
+                            row("tms_est", [v_i(index), v_s(type_), v_s(station.upper()), v_i(i_sol + 1), v_s(tf), v_s(tt), v_s(units[type_]),
+                                            v_f(value), v_f(sg)], None, info=dict(type=type_, period=str(period), value=value, sigma=sg))
+                            index += 1
+                    else:
+                        iv = dset.meta["vel"]["interval"][0]
+                        sg = est[type_ + "_SIG"] if type_ + "_SIG" in est else 0.0
+                        row("tms_est1", [v_i(index), v_s(type_), v_s(station.upper()), v_s(yyyydddsssss(iv[0])), v_s(yyyydddsssss(iv[1])),
+                                         v_s(units[type_]), v_f(entries), v_f(sg)], None, info=dict(type=type_, value=entries, sigma=sg))
+                        index += 1
+                expect_const(sq[-1][1], "SOLUTION/ESTIMATE")
+                ctx.count("tms:solution_estimate")
             # REF_COORDINATE
             if "EAST" in names:
                 with warnings.catch_warnings():
@@ -1289,7 +1573,7 @@ def run(ctx):
     ok = ctx.prove(THEOREMS)
     acc = Acc()
     n_site = 10 if ctx.quick() else 60
-    n_tms = 45 if ctx.quick() else 300
+    n_tms = 36 if ctx.quick() else 300
     run_site_writers(ctx, t, acc, n_site)
     ctx.log(f"site-information writers done: {sum(len(v) for v in acc.cases.values())} lines")
     run_tms(ctx, t, acc, n_tms)
